@@ -474,6 +474,135 @@ func c07Unpack() *core.Space {
 	}
 }
 
+// (g) reference cycles x typed targets: every cyclic (and some diamond-shaped) reference structure
+// read through every kind of reader; a cycle must end in an error (or a value), never in a hang or
+// a stack overflow.
+func c07Cycles() *core.Space {
+	cfgs := []M{
+		{"a": "${a}"},
+		{"a": "${b}", "b": "${a}"},
+		{"a": "${b}", "b": "${c}", "c": "${a}"},
+		{"a": "${b}", "b": L{"${a}"}},
+		{"a": L{"${a}"}},
+		{"a": "${o.x}", "o": M{"x": "${a}"}},
+		{"a": "${l.0}", "l": L{"${a}"}},
+		{"a": "x${a}"},
+		{"a": "${b:${a}}"},
+		{"a": "${a.x}"},
+		{"a": "${o}", "o": M{"x": "${a}"}},
+		{"a": "${l}", "b": "${l}", "l": L{"x", "y"}},
+		{"a": "${a:+${a}}"},
+		{"a": "${b}", "b": "${a:d}"},
+		{"a": L{"${b}"}, "b": L{"${a}"}},
+		{"a": "${b}", "b": M{"x": "${b}"}},
+	}
+	type two struct{ A, B []string }
+	targets := []func() interface{}{
+		func() interface{} { return &struct{ A string }{} },
+		func() interface{} { return &struct{ A []string }{} },
+		func() interface{} { return &struct{ A [1]string }{} },
+		func() interface{} { return &struct{ A [][]string }{} },
+		func() interface{} { return &struct{ A map[string]string }{} },
+		func() interface{} { return &struct{ A map[string][]string }{} },
+		func() interface{} { return &struct{ A interface{} }{} },
+		func() interface{} { return &struct{ A []interface{} }{} },
+		func() interface{} { return &struct{ A *ucfg.Config }{} },
+		func() interface{} { return &struct{ A int }{} },
+		func() interface{} { return &two{} },
+		func() interface{} { return &map[string][]string{} },
+		func() interface{} { return &map[string]interface{}{} },
+		func() interface{} { return &struct{ A []int }{} },
+		func() interface{} { return &struct{ A *[]string }{} },
+		func() interface{} { return &struct{ A struct{ X []string } }{} },
+	}
+	optSets := [][]ucfg.Option{{ucfg.VarExp, ucfg.PathSep(".")}, {ucfg.VarExp}, {ucfg.VarExp, ucfg.PathSep("."), ucfg.ResolveNOOP}}
+	radices := []int{len(cfgs), len(targets), len(optSets)}
+	return &core.Space{
+		Name: "reference-cycles-x-targets",
+		Size: product(radices...),
+		Text: func(i int) string {
+			d := mixedRadix(i, radices...)
+			return fmt.Sprintf("config %v (option set %d) unpacked into %T, then getters and FlattenedKeys", cfgs[d[0]], d[2], targets[d[1]]())
+		},
+		Exec: func(i int) core.Result {
+			d := mixedRadix(i, radices...)
+			return c07Wrap("cycles", func() {
+				opts := optSets[d[2]]
+				c, err := ucfg.NewFrom(cfgs[d[0]], opts...)
+				if err != nil {
+					return
+				}
+				c.Unpack(targets[d[1]](), opts...)
+				for _, k := range []string{"a", "b", "o", "l"} {
+					c.String(k, -1, opts...)
+					c.Int(k, -1, opts...)
+					c.Child(k, -1, opts...)
+					c.String(k, 0, opts...)
+					c.CountField(k, opts...)
+				}
+				c.FlattenedKeys(opts...)
+				c.Has("a.x", -1, opts...)
+			})
+		},
+	}
+}
+
+// (h) overlapping definitions in one input: ordered pairs and triples of entries whose keys reach
+// into each other (dotted names, index segments) with scalar, null, list and object values - the
+// input may be rejected as a duplicate, it must not crash.
+func c07Overlaps(maxEntries int) *core.Space {
+	keys := []string{"a", "a.0", "a.1", "a.b", "a.0.b", "a.1.0"}
+	vals := []interface{}{1, nil, L{1}, L{nil, 2, 3}, M{"b": 1}, M{"0": 1}, L{L{1}, L{2}, L{3}}, L{M{"b": 1}, M{"c": 2}}}
+	ne := len(keys) * len(vals)
+	size := ne * ne
+	if maxEntries >= 3 {
+		size += ne * ne * ne
+	}
+	dec := func(i int) []int {
+		if i < ne*ne {
+			return []int{i / ne, i % ne}
+		}
+		i -= ne * ne
+		return []int{i / (ne * ne), (i / ne) % ne, i % ne}
+	}
+	return &core.Space{
+		Name: fmt.Sprintf("overlapping-definitions<=%d-entries", maxEntries),
+		Size: size,
+		Text: func(i int) string {
+			s := ""
+			for _, e := range dec(i) {
+				s += fmt.Sprintf(" %q: %v;", keys[e/len(vals)], vals[e%len(vals)])
+			}
+			return "NewFrom/Merge of the ordered entries {" + s + " } with PathSep(\".\")"
+		},
+		Exec: func(i int) core.Result {
+			es := dec(i)
+			return c07Wrap("overlaps", func() {
+				var fields []reflect.StructField
+				for k, e := range es {
+					fields = append(fields, reflect.StructField{Name: fmt.Sprintf("F%d", k), Type: tIface, Tag: reflect.StructTag(fmt.Sprintf(`config:"%s"`, keys[e/len(vals)]))})
+				}
+				st := reflect.New(reflect.StructOf(fields)).Elem()
+				for k, e := range es {
+					if v := vals[e%len(vals)]; v != nil {
+						st.Field(k).Set(reflect.ValueOf(v))
+					}
+				}
+				for _, opts := range [][]ucfg.Option{{ucfg.PathSep(".")}, {ucfg.PathSep("."), ucfg.AppendValues}, nil} {
+					c, err := ucfg.NewFrom(st.Interface(), opts...)
+					if err != nil {
+						continue
+					}
+					var m map[string]interface{}
+					c.Unpack(&m, opts...)
+					c.FlattenedKeys(opts...)
+					c.Merge(st.Interface(), opts...)
+				}
+			})
+		},
+	}
+}
+
 // (f) the lexer goroutine and the parser under the scheduler: every interleaving of their
 // channel operations (send, receive, range, close, the non-blocking select) - no bound.
 func c07Lexer(maxLen int) *core.Space { return c07LexerP(maxLen, []string{""}) }
@@ -571,16 +700,16 @@ func init() {
 	core.Register(&core.Check{
 		ID:    "C07",
 		Level: "exploration",
-		Rule:  "totality in isolated workers: (a) every string of length <=4 (thorough <=5) over 14 grammar characters through parse.Value and ValueWithConfig under all 32 configs; (b) every string of length <=5 (thorough <=6) over {$ { } : + ? a .} stored as a setting under VarExp (4 option sets incl. ResolveEnv/ResolveNOOP) and read through String, Int, Child, Unpack into map and struct, FlattenedKeys, Has, CountField, Remove; (c) every byte string of length <=3 (thorough <=4) over 16 significant bytes per format plus every prefix, single-byte deletion and single-byte substitution of three seed documents per format through the YAML/JSON/HJSON loaders and Unpack/FlattenedKeys; (d) 18 getters/setters/Has/Remove/Child/CountField/Merge/NewFrom x 24 names (empty, dotted, double dots, negative, huge, hex, bracketed) x 12 indices (MinInt64 .. MaxInt64) x 5 option sets x 5 base configs, with the list-length bound checked on the private state; (f) for every string of length <=4 (thorough <=5) of (b) the lexer goroutine and the parser run under the cooperative scheduler with goroutine start and channel send/receive/range/close/select as scheduling points - all interleavings, no bound: same parse outcome on every schedule, both terminate, no deadlock or leaked goroutine; (e) ~72 unpack/merge targets incl. unsupported kinds (chan, func, complex, uintptr, unsafe.Pointer, non-string map keys, zero-length arrays, nil and non-nil *interface{}, multiple pointers, non-pointer, nil, interfaces with methods, embedded pointers, recursive types, odd Unpack signatures, bad tags) x 9 configs. Oracle: every call returns, no panic, no worker death (stack overflow, OOM under a 2 GiB address-space limit, hang > 10 s), every goroutine started by the library has finished, no list part longer than MaxIdx+1; non-trivial = every executed case",
+		Rule:  "totality in isolated workers: (a) every string of length <=4 (thorough <=5) over 14 grammar characters through parse.Value and ValueWithConfig under all 32 configs; (b) every string of length <=5 (thorough <=6) over {$ { } : + ? a .} stored as a setting under VarExp (4 option sets incl. ResolveEnv/ResolveNOOP) and read through String, Int, Child, Unpack into map and struct, FlattenedKeys, Has, CountField, Remove; (c) every byte string of length <=3 (thorough <=4) over 16 significant bytes per format plus every prefix, single-byte deletion and single-byte substitution of three seed documents per format through the YAML/JSON/HJSON loaders and Unpack/FlattenedKeys; (d) 18 getters/setters/Has/Remove/Child/CountField/Merge/NewFrom x 24 names (empty, dotted, double dots, negative, huge, hex, bracketed) x 12 indices (MinInt64 .. MaxInt64) x 5 option sets x 5 base configs, with the list-length bound checked on the private state; (f) for every string of length <=4 (thorough <=5) of (b) the lexer goroutine and the parser run under the cooperative scheduler with goroutine start and channel send/receive/range/close/select as scheduling points - all interleavings, no bound: same parse outcome on every schedule, both terminate, no deadlock or leaked goroutine; (e) ~72 unpack/merge targets incl. unsupported kinds (chan, func, complex, uintptr, unsafe.Pointer, non-string map keys, zero-length arrays, nil and non-nil *interface{}, multiple pointers, non-pointer, nil, interfaces with methods, embedded pointers, recursive types, odd Unpack signatures, bad tags) x 9 configs; (g) 16 cyclic or diamond-shaped reference structures (self, rings of 2 and 3, through lists, objects, path walks, defaults and alternates) x 16 typed targets (string, slices, arrays, maps of slices, interface{}, *Config, two slice fields) x 3 option sets, followed by every getter; (h) every ordered pair and triple of entries over 6 mutually overlapping keys (a, a.0, a.1, a.b, a.0.b, a.1.0) x 8 values (scalar, null, lists shorter and longer, objects, nested lists) given through struct field order to NewFrom/Merge with and without PathSep. Oracle: every call returns, no panic, no worker death (stack overflow, OOM under a 2 GiB address-space limit, hang > 10 s), every goroutine started by the library has finished, no list part longer than MaxIdx+1; non-trivial = every executed case",
 		Assumptions: []string{
 			"short strings over format-specific alphabets and single-edit neighbours of seed documents, not long adversarial inputs",
 			"goroutine accounting through the `go` hook of the overlay (start/finish counters)",
 		},
 		Spaces: func(tier string) []*core.Space {
 			if tier == "thorough" {
-				return []*core.Space{c07Unpack(), c07Addresses(), c07Parse(5), c07VarExp(6, []string{""}), c07VarExp(5, []string{"${}", "${:a}", "a${a.${}"}), c07Loaders(4), c07Lexer(5), c07LexerPrefixed(4)}
+				return []*core.Space{c07Unpack(), c07Cycles(), c07Overlaps(3), c07Addresses(), c07Parse(5), c07VarExp(6, []string{""}), c07VarExp(5, []string{"${}", "${:a}", "a${a.${}"}), c07Loaders(4), c07Lexer(5), c07LexerPrefixed(4)}
 			}
-			return []*core.Space{c07Unpack(), c07Addresses(), c07Parse(4), c07VarExp(5, []string{""}), c07VarExp(4, []string{"${}", "${:a}", "a${a.${}"}), c07Loaders(3), c07Lexer(4), c07LexerPrefixed(3)}
+			return []*core.Space{c07Unpack(), c07Cycles(), c07Overlaps(3), c07Addresses(), c07Parse(4), c07VarExp(5, []string{""}), c07VarExp(4, []string{"${}", "${:a}", "a${a.${}"}), c07Loaders(3), c07Lexer(4), c07LexerPrefixed(3)}
 		},
 	})
 }
